@@ -135,3 +135,110 @@ func Harness_C20_unrestricted() {
 	vassert(reported == 1, "unrestricted problem is always reported")
 	vreach("end")
 }
+
+// ---- sequences of reports and combined options ----
+
+type c20Env struct {
+	pass     *analysis.Pass
+	node     ast.Node
+	l, std   int
+	reported *int
+}
+
+func c20Setup() *c20Env {
+	mStr, m := c20Version()
+	lStr, l := c20Version()
+	hasF := nondetBool()
+	fStr, f := "", 0
+	if hasF {
+		fStr, f = c20Version()
+	}
+	fset := token.NewFileSet()
+	tf := fset.AddFile("a.go", -1, 100)
+	file := &ast.File{Name: ast.NewIdent("p"), GoVersion: fStr, Package: tf.Pos(0), FileStart: tf.Pos(0), FileEnd: tf.Pos(100)}
+	node := &ast.Ident{NamePos: tf.Pos(10), Name: "x"}
+	pkg := types.NewPackage("example.com/p", "p")
+	vsetfield(pkg, "goVersion", mStr)
+	reported := new(int)
+	pass := &analysis.Pass{
+		Fset:      fset,
+		Pkg:       pkg,
+		TypesInfo: &types.Info{FileVersions: map[*ast.File]string{file: lStr}},
+		ResultOf:  map[*analysis.Analyzer]any{tokenfile.Analyzer: map[*token.File]*ast.File{tf: file}},
+		Report:    func(analysis.Diagnostic) { *reported++ },
+	}
+	std := m
+	if hasF {
+		if m < 21 {
+			std = f
+		} else if f > m {
+			std = f
+		}
+	}
+	return &c20Env{pass, node, l, std, reported}
+}
+
+// c20Bound returns an option of the given kind with a symbolic bound and
+// whether the documented predicate admits the report.
+func (e *c20Env) c20Bound(kind int, symbolic bool) (Option, bool) {
+	var bStr string
+	var b int
+	if symbolic {
+		bStr, b = c20Version()
+	} else {
+		i := vchoose(4)
+		bStr, b = []string{"go1.0", "go1.9", "go1.10", "go1.99"}[i], []int{0, 9, 10, 99}[i]
+	}
+	switch kind {
+	case 0:
+		return MinimumLanguageVersion(bStr), b <= e.l
+	case 1:
+		return MaximumLanguageVersion(bStr), e.l <= b
+	case 2:
+		return MinimumStdlibVersion(bStr), b <= e.std
+	default:
+		return MaximumStdlibVersion(bStr), e.std <= b
+	}
+}
+
+// A report's bounds never carry over to the next report.
+func Harness_C20_sequence() {
+	e := c20Setup()
+	// the most restrictive bound of each kind
+	var o1 Option
+	switch vchoose(4) {
+	case 0:
+		o1 = MinimumLanguageVersion("go1.99")
+	case 1:
+		o1 = MaximumLanguageVersion("go1.0")
+	case 2:
+		o1 = MinimumStdlibVersion("go1.99")
+	default:
+		o1 = MaximumStdlibVersion("go1.0")
+	}
+	Report(e.pass, e.node, "first", o1)
+	*e.reported = 0
+	k2 := vchoose(5)
+	if k2 == 4 {
+		Report(e.pass, e.node, "second")
+		vassert(*e.reported == 1, "an unrestricted problem is not reported after a restricted one")
+	} else {
+		o2, want := e.c20Bound(k2, true)
+		Report(e.pass, e.node, "second", o2)
+		vassert((*e.reported == 1) == want, "the second of two reports does not follow its own bound alone")
+	}
+	vreach("end")
+}
+
+// Two bounds on one report: reported iff both admit it.
+func Harness_C20_two_options() {
+	e := c20Setup()
+	k1 := vchoose(4)
+	k2 := vchoose(4)
+	vassume(k1 < k2)
+	o1, w1 := e.c20Bound(k1, true)
+	o2, w2 := e.c20Bound(k2, false)
+	Report(e.pass, e.node, "msg", o1, o2)
+	vassert((*e.reported == 1) == (w1 && w2), "a report with two bounds is not reported exactly when both admit it")
+	vreach("end")
+}
